@@ -187,17 +187,85 @@ def compile_units(run, units, deps, profile, vmon, tag, extra_head="", nshards=N
     return good
 
 
-def run_shards(run, bins, unit_index, args=None, timeout=1500):
-    """Run shard binaries, merge their records into `run`.  unit_index: name -> Unit."""
+SHARD_TIMEOUT = int(os.environ.get("VERIF_SHARD_TIMEOUT", "180"))
+UNIT_TIMEOUT = int(os.environ.get("VERIF_UNIT_TIMEOUT", "90"))
+
+
+def run_shards(run, bins, unit_index, args=None, timeout=None, rebuild=None):
+    """Run shard binaries, merge their records into `run`.  unit_index: name -> Unit.
+    Bounded progress: a shard normally finishes in seconds.  If one exceeds the (generous) shard watchdog, the units
+    it had not completed are rebuilt and run one per process; a unit that, alone, still does not finish within
+    UNIT_TIMEOUT (its peers take well under a second) is reported as a violation 'call does not return'
+    (e.g. unbounded recursion in generated code); if no rebuild function is available the run is inconclusive."""
     args = args or [str(run.seed), run.tier]
+    timeout = timeout or (SHARD_TIMEOUT if run.tier == "quick" else SHARD_TIMEOUT * 8)
 
     def go(b):
         path, us = b
-        rc, lines, err = core.run_bin(path, args, timeout=timeout)
-        return (path, us, rc, lines, err)
+        try:
+            rc, lines, err = core.run_bin(path, args, timeout=timeout, raise_timeout=True)
+            return (path, us, rc, lines, err, False)
+        except core.Timeout as t:
+            return (path, us, None, t.partial, "", True)
 
     samples_by_unit = {}
-    for path, us, rc, lines, err in core.pmap(go, bins):
+    queue = list(bins)
+    rounds = 0
+    while queue:
+        rounds += 1
+        if rounds > 12:
+            raise Inconclusive("too many watchdog rounds")
+        next_queue = []
+        culprits = []
+        rest_units = []
+        for path, us, rc, lines, err, timed_out in core.pmap(go, queue):
+            if not timed_out:
+                merge_records(run, path, us, rc, lines, err, unit_index, args, samples_by_unit)
+                continue
+            done = {ln.split("\t")[1] for ln in lines if ln.startswith("D\t") and len(ln.split("\t")) == 4}
+            finished = [u for u in us if u.name in done]
+            pending = [u for u in us if u.name not in done]     # units run in list order: pending[0] is the one that hangs
+            if finished:
+                merge_records(run, path, finished, 0, [l for l in lines if not l.startswith("C\t")] + ["E"], "", unit_index, args, samples_by_unit)
+            if rebuild is None:
+                raise Inconclusive("watchdog: %s exceeded %ds and no single-unit rebuild is available" % (os.path.basename(path), timeout))
+            culprits.append(pending[0])
+            rest_units.append(pending[1:])
+        if culprits:
+            singles = rebuild(culprits, len(culprits))
+
+            def go1(b):
+                p1, u1 = b
+                try:
+                    rc1, l1, e1 = core.run_bin(p1, args, timeout=UNIT_TIMEOUT, raise_timeout=True)
+                    return (p1, u1, rc1, l1, e1, False)
+                except core.Timeout as t:
+                    return (p1, u1, None, t.partial, "", True)
+
+            for p1, u1, rc1, l1, e1, to1 in core.pmap(go1, singles):
+                if not to1:
+                    merge_records(run, p1, u1, rc1, l1, e1, unit_index, args, samples_by_unit)
+                    continue
+                for u in u1:
+                    src, _ = shard_source([u], "")
+                    run.count("units/non-terminating")
+                    run.violation("non-termination|%s" % u.sig,
+                                  "driving %s does not terminate: alone in its own process it did not finish within %d s (peer units finish in well under a second) - a generated call does not return"
+                                  % (u.name, UNIT_TIMEOUT), detail={"unit": u.name, "meta": u.meta, "last_records": l1[-3:]},
+                                  replay_src=src, replay_meta={"kind": "run", "args": args, "deps": getattr(run, "cur_deps", "std")})
+        if any(v["sig"].startswith("non-termination|") for v in run.violations):
+            # the verdict is decided; do not spend the watchdog again on the units that were queued behind the hanging one
+            run.count("units/skipped-after-non-termination", sum(len(x) for x in rest_units))
+            break
+        for rest in rest_units:
+            if rest:
+                next_queue += rebuild(rest, 1)
+        queue = next_queue
+    return samples_by_unit
+
+
+def merge_records(run, path, us, rc, lines, err, unit_index, args, samples_by_unit, count_events=True):
+    if True:
         done = set()
         ended = False
         for ln in lines:
@@ -231,8 +299,9 @@ def run_shards(run, bins, unit_index, args=None, timeout=1500):
                 run.count(parts[1], int(parts[2]))
             elif t == "D" and len(parts) == 4:
                 done.add(parts[1])
-                run.evaluations += int(parts[2])
-                run.distinct += int(parts[3])
+                if count_events:
+                    run.evaluations += int(parts[2])
+                    run.distinct += int(parts[3])
                 if int(parts[2]) == 0:
                     run.count("units/zero-events")
             elif t == "P" and len(parts) >= 3:
@@ -252,4 +321,3 @@ def run_shards(run, bins, unit_index, args=None, timeout=1500):
             raise Inconclusive("shard %s: rc=%s ended=%s missing units=%s stderr=%s"
                                % (os.path.basename(path), rc, ended, missing[:5], err[-400:]))
         run.count("units/driven", len(us))
-    return samples_by_unit
